@@ -8,6 +8,8 @@ import (
 	"sort"
 
 	"verif/internal/load"
+	"golang.org/x/tools/go/types/typeutil"
+
 	"verif/internal/report"
 )
 
@@ -338,10 +340,21 @@ func (a *Analysis) NoRescan() *report.RuleResult {
 		})
 		// ---- loops that move an index over a file-sized collection
 		loops := map[*ast.ForStmt][]use{}
+		searches := map[*ast.CallExpr]bool{}
 		var loopOrder []*ast.ForStmt
 		for _, u := range uses {
 			for i := len(u.stack) - 1; i >= 0; i-- {
 				if _, isLit := u.stack[i].(*ast.FuncLit); isLit {
+					// the predicate of a binary search of the standard library: a loop in disguise, logarithmic by contract
+					if i > 0 {
+						if call, ok := u.stack[i-1].(*ast.CallExpr); ok {
+							if fn, _ := typeutil.Callee(info, call).(*types.Func); fn != nil && fn.Pkg() != nil && fn.Pkg().Path() == "sort" && (fn.Name() == "Search" || fn.Name() == "Find") && !searches[call] {
+								searches[call] = true
+								res.Count("loops", 1)
+								res.OK(fmt.Sprintf("%s/search over %s", fname, types.ExprString(u.node.X)), m.Pos(call), fname, "binary search of the standard library: logarithmic in the size of the collection")
+							}
+						}
+					}
 					break
 				}
 				if fs, ok := u.stack[i].(*ast.ForStmt); ok {
@@ -402,6 +415,10 @@ func (a *Analysis) NoRescan() *report.RuleResult {
 			res.Count("loops", 1)
 			key := fmt.Sprintf("%s/loop#%d over %s", fname, li+1, types.ExprString(indUse.node.X))
 			pos := m.Pos(fs)
+			if bl, ok := bisectionOf(fs, func(e ast.Expr) string { return types.ExprString(unparen(e)) }); ok && bl.mid == ind.Name() {
+				res.OK(key, pos, fname, "bisection: the interval between the two bounds is halved in every iteration, so the work per call is logarithmic in the size of the collection")
+				continue
+			}
 			// (1) where does the index start?
 			var initExpr ast.Expr
 			isParam := false
